@@ -179,15 +179,23 @@ class FieldData:
         (self.__class__.STORAGE_KEY == "name" and \
         fieldname == self.__class__.NAME_FIELD):
          renaming_connected = True
-         self._gfa._unregister_line(self)
+    if value is not None and self.vlevel >= 3:
+      self._field_or_default_datatype(fieldname, value)
+      gfapy.Field._validate_gfa_field(value, self._field_datatype(fieldname),
+          fieldname)
+    if renaming_connected:
+      if isinstance(value, str) and not gfapy.is_placeholder(value):
+        previous = self._gfa.line(value)
+        if previous is not None and previous is not self:
+          raise gfapy.NotUniqueError(
+            "Line: {}\n".format(str(self))+
+            "cannot be renamed to {}\n".format(value)+
+            "The name is used by the line: {}".format(str(previous)))
+      self._gfa._unregister_line(self)
     if value is None:
       if fieldname in self._data:
         self._data.pop(fieldname)
     else:
-      if self.vlevel >= 3:
-        self._field_or_default_datatype(fieldname, value)
-        gfapy.Field._validate_gfa_field(value, self._field_datatype(fieldname),
-            fieldname)
       self._data[fieldname] = value
     if renaming_connected:
       self._gfa._register_line(self)
